@@ -11,8 +11,9 @@ from .. import core, bdd
 from ..core import Failure
 
 VARSETS = [('a', 'b', 'c', 'd'), ('a', 'b', 'c', 'd', 'e'), ('x_1', 'Var', '_v', '\u00e9', 'T'),
-           ('a' * 30, 'b', 'notx', 'lambda_'), ('p', 'q', 'r')]
-SLOTS = ('v0', 'v1', 'v2', 'v3', 'v4')
+           ('a' * 30, 'b', 'notx', 'lambda_'), ('p', 'q', 'r'),
+           ('s0', 's1', 's2', 's3', 's4', 's5', 's6')]
+SLOTS = ('v0', 'v1', 'v2', 'v3', 'v4', 'v5', 'v6')
 
 
 def rename(e, names):
